@@ -89,6 +89,12 @@ claim("C06", "exploration", "om",
       "Held on the histories of the run; one committer at a time as the statement assumes; porcupine timeouts are inconclusive.",
       "DESIGN.md §7 C06")
 
+claim("C07", "fault_enumeration", "group",
+      "runtime monitor of real ConsumerGroup members (each with its own client) against a simulated group coordinator implementing Kafka's group state machine: trace automaton per Consume call over a recording handler (Setup / ConsumeClaim / Cleanup), coordinator-side event log for identities, start offsets, final commits and assignments, delivery coverage across sessions, quiescence-judged termination, race detector",
+      "Enumerated core: every single fault (and fault after one ok; pairs in thorough) x request kind (find-coordinator, join, sync, heartbeat, commit, leave) x two handler behaviours on a one-member scenario; plus seeded scenarios with 1-3 members, 1-2 topics, 3 strategies, 7 handler behaviours (incl. marking inside Cleanup), late joiners, Close mid-session, context cancellation, pre-stored commits. Injected UNKNOWN_MEMBER_ID answers are made true at the coordinator (the member is removed).",
+      "Held on the executions of the run. The final-commit clause is only judged when the member's commit path was not disturbed by injected faults; 'exactly one claim unless the session is ending' is judged as at-most-one plus counters.",
+      "DESIGN.md §7 C07")
+
 def main():
     props = [json.loads(l) for l in open(os.path.join(HERE, "properties.jsonl"))]
     ids = [p["id"] for p in props]
